@@ -62,6 +62,38 @@ Theorem C10_subset_independent :
       before ++ cases_of scope logline istate body run_body init t ++ after.
 Proof. exact subset_independent. Qed.
 
+(* A test that does not run - @skip, or filtered out by its @tag under the -t option - influences nothing:
+   the executed cases, the assertion / pass / fail counters and the exit status are those of the file with
+   every such test REMOVED (only the number of skipped cases differs).  [untag cli] is what the runner makes of
+   a tagged test; [C10_tag_table] is the table of docs/testing.md. *)
+Theorem C10_skipped_influence_nothing :
+  forall (scope logline istate body : Type) run_body (init : istate) (ts : list (test scope body)),
+    let r := run_file scope logline istate body run_body init ts c0 in
+    let r' := run_file scope logline istate body run_body init (filter (executed scope body) ts) c0 in
+    filter (fun x => negb (tc_skip x)) (fst r) = fst r' /\
+    asserts (snd r) = asserts (snd r') /\ passes (snd r) = passes (snd r') /\ fails (snd r) = fails (snd r') /\
+    exit_status (snd r) = exit_status (snd r').
+Proof. exact skipped_influence_nothing. Qed.
+
+Theorem C10_filtered_tests_influence_nothing :
+  forall (scope logline istate body : Type) run_body (init : istate) (cli : list N) (tts : list (list tag * test scope body)),
+    let r := run_file scope logline istate body run_body init (map (untag cli) tts) c0 in
+    let r' := run_file scope logline istate body run_body init (filter (executed scope body) (map (untag cli) tts)) c0 in
+    filter (fun x => negb (tc_skip x)) (fst r) = fst r' /\ fails (snd r) = fails (snd r') /\
+    exit_status (snd r) = exit_status (snd r').
+Proof.
+  exact (fun scope logline istate body run_body init cli tts =>
+    match skipped_influence_nothing scope logline istate body run_body init (map (untag cli) tts) with
+    | conj A (conj _ (conj _ (conj D E))) => conj A (conj D E) end).
+Qed.
+
+Theorem C10_tag_table :
+  forall p d : N, p <> d ->
+    tag_runs [(p, false)] [] = false /\ tag_runs [(p, false)] [p] = true /\ tag_runs [(p, false)] [d] = false /\
+    tag_runs [(p, true)] [] = true /\ tag_runs [(p, true)] [p] = false /\ tag_runs [(p, true)] [d] = true /\
+    tag_runs [] [] = true /\ tag_runs [] [p] = true /\ tag_runs [] [d] = true.
+Proof. exact tag_table. Qed.
+
 (* ---- with describe groups and before_/after_ hooks (any interpreter, any bodies).
    The claim of independence is about UNGROUPED tests and about groups AS UNITS:
    * the items of a test file (ungrouped test subroutines and whole describe groups) can be permuted
@@ -153,6 +185,9 @@ Print Assumptions C10_exit_zero_iff.
 Print Assumptions C10_count_sum.
 Print Assumptions C10_order_independent.
 Print Assumptions C10_subset_independent.
+Print Assumptions C10_skipped_influence_nothing.
+Print Assumptions C10_filtered_tests_influence_nothing.
+Print Assumptions C10_tag_table.
 Print Assumptions C10_items_order_independent.
 Print Assumptions C10_items_subset_independent.
 Print Assumptions C10_ungrouped_item.
